@@ -1,5 +1,6 @@
 import NumbersModel.Drv.Proto
 import NumbersModel.Model.TokenizerCfg
+import NumbersModel.Model.FormulaAcceptDefs
 namespace NumbersModel.Drv
 open NumbersModel NumbersModel.Tokenizer
 
@@ -27,6 +28,13 @@ def handleTok : List String → Option String
   | ["sq", s] => do
     let s ← parseText s
     pure (showOptNat (sqMatch Gen.whitespace s))
+  -- domain predicates of the acceptance theorem (C18 clause 4)
+  | ["refok", s] => do
+    let s ← parseText s
+    pure (if FormulaAccept.refOK s then "ok 1" else "ok 0")
+  | ["atomok", s] => do
+    let s ← parseText s
+    pure (if FormulaAccept.atomOK s then "ok 1" else "ok 0")
   | ["sn", s] => do
     let s ← parseText s
     pure (if snMatch s then "ok 1" else "ok 0")
